@@ -30,7 +30,7 @@ import (
 // fmtRec is one record. Byte strings are Go strings here and latin1 strings in JSON.
 type fmtRec struct {
 	Src  string
-	Via  string // "ast" (parser + PrettyPrint) or "repl" (repl.EvalOne FormatOnly)
+	Via  string // "ast" (parser + PrettyPrint), "repl" (repl.EvalOne FormatOnly), "modify" (parser, identity ast.Modify, PrettyPrint), "line" (REPL line-mode lexer + PrettyPrint)
 	TF   []any  // structural dump of T(src) with the comments' same-line flags (for attribution only)
 	T0   []any  // structural dump of T(src)
 	D0   string // canonical dump of T(src)
@@ -101,12 +101,22 @@ func canonDump(t []any) string {
 
 // fmtParse: the parser accepts src (as `grol -format` / evalOne decide it): no errors, no continuation.
 func fmtParse(src string) (prog *ast.Statements, ok bool, msg string) {
+	return fmtParseMode(src, false)
+}
+
+// fmtParseMode: lineMode = the lexer of the interactive REPL (lexer.NewLineMode: the end of the text is an EOL token and
+// an incomplete text asks for a continuation) instead of the whole-file lexer.
+func fmtParseMode(src string, lineMode bool) (prog *ast.Statements, ok bool, msg string) {
 	defer func() {
 		if r := recover(); r != nil {
 			prog, ok, msg = nil, false, fmt.Sprintf("parser panic: %v", r)
 		}
 	}()
-	p := parser.New(lexer.New(src))
+	l := lexer.New(src)
+	if lineMode {
+		l = lexer.NewLineMode(src)
+	}
+	p := parser.New(l)
 	prog = p.ParseProgram()
 	if errs := p.Errors(); len(errs) > 0 {
 		return nil, false, strings.SplitN(errs[0], "\n", 2)[0]
@@ -134,6 +144,39 @@ func fmtPrint(prog *ast.Statements, compact bool) (out string, panicMsg, panicAt
 
 var fmtReplState *eval.State
 
+// fmtRebuild: the tree after a pass through ast.Modify that rewrites nothing - what eval.State.ExpandMacros returns in a
+// session where a macro is defined that the program does not call (every input of such a session, every text loaded
+// through eval.EvalString, goes through it before it is evaluated, so it is the tree function values and quote() hold).
+// A rebuilt tree is the same program, so the same laws hold for what the printer writes for it.
+var fmtMacroState *eval.State
+
+const fmtUnrelatedMacro = "zzunrelated = macro(q) { quote(unquote(q)) }"
+
+func fmtRebuild(prog *ast.Statements) (out *ast.Statements, panicMsg string) {
+	defer func() {
+		if r := recover(); r != nil {
+			out, panicMsg = nil, fmt.Sprintf("ast.Modify panic: %v", r)
+		}
+	}()
+	if fmtMacroState == nil {
+		fmtMacroState, _ = newState(RunOpt{})
+		m, ok, _ := fmtParse(fmtUnrelatedMacro)
+		if !ok {
+			panic("macro definition rejected")
+		}
+		fmtMacroState.DefineMacros(m)
+		if fmtMacroState.NumMacros() != 1 {
+			panic("macro not defined")
+		}
+	}
+	n := fmtMacroState.ExpandMacros(prog)
+	st, ok := n.(*ast.Statements)
+	if !ok {
+		return nil, fmt.Sprintf("ExpandMacros returned %T for a program", n)
+	}
+	return st, ""
+}
+
 // fmtRepl: what `grol -format [-compact]` writes for src (repl.EvalOne with FormatOnly), or ok=false when rejected.
 func fmtRepl(src string, compact bool) (out string, ok bool, panicMsg string) {
 	if fmtReplState == nil {
@@ -155,29 +198,56 @@ func hasStmtComment(v any) bool {
 	return containsKind(v, map[string]bool{"cmt": true})
 }
 
+// fmtLastAst: the most recent "ast" record and its parsed program (the "modify" route of the same source starts from it).
+var fmtLastAst struct {
+	src  string
+	prog *ast.Statements
+	rec  fmtRec
+}
+
 // fmtRecord builds the record of src through the given path; ok=false when the parser rejects src
 // (then src is outside the property's quantifier).
+//
+// Route "modify": src -> T(src) -> identity ast.Modify -> printer = f; f is then an ordinary text: it is read back by the
+// parser (dN) and formatted again by the plain formatter (fNN). When f is byte-identical to what the "ast" route wrote
+// for the same source, everything downstream of f is what that record already holds and is taken from there.
 func fmtRecord(src, via string) (r fmtRec, ok bool) {
 	r.Src, r.Via = src, via
-	prog, ok, _ := fmtParse(src)
-	if !ok {
-		return r, false
-	}
-	r.TF = stripKey(dumpStmts(prog)).([]any)
-	r.Cm = hasStmtComment(r.TF)
-	if r.Cm {
-		r.T0 = stripFlags(deepCopy(any(r.TF))).([]any)
+	lineMode := via == "line"
+	var prog *ast.Statements
+	var base *fmtRec
+	if via == "modify" && fmtLastAst.src == src && fmtLastAst.prog != nil {
+		base, prog = &fmtLastAst.rec, fmtLastAst.prog
+		r.TF, r.Cm, r.T0, r.D0 = base.TF, base.Cm, base.T0, base.D0
 	} else {
-		r.T0 = r.TF
+		prog, ok, _ = fmtParseMode(src, lineMode)
+		if !ok {
+			return r, false
+		}
+		r.TF = stripKey(dumpStmts(prog)).([]any)
+		r.Cm = hasStmtComment(r.TF)
+		if r.Cm {
+			r.T0 = stripFlags(deepCopy(any(r.TF))).([]any)
+		} else {
+			r.T0 = r.TF
+		}
+		r.D0 = canonDump(r.T0)
 	}
-	r.D0 = canonDump(r.T0)
-	format := func(text string, p *ast.Statements, compact bool) (string, bool) {
+	format := func(text string, p *ast.Statements, compact, first bool) (string, bool) {
 		if via == "repl" {
 			out, ok, pm := fmtRepl(text, compact)
 			if pm != "" {
 				r.Panic, r.PanicAt = pm, "repl.EvalOne"
 			}
 			return out, ok
+		}
+		if via == "modify" && first {
+			p2, pm := fmtRebuild(p)
+			if pm != "" {
+				r.Panic, r.PanicAt = pm, "ast.Modify"
+				return "", false
+			}
+			p = p2
 		}
 		out, pm, at := fmtPrint(p, compact)
 		if pm != "" {
@@ -187,20 +257,31 @@ func fmtRecord(src, via string) (r fmtRec, ok bool) {
 		return out, true
 	}
 	second := func(text string, compact bool) (okParse bool, dump string, tree []any, again string, okAgain bool, errMsg string) {
-		p2, ok2, msg := fmtParse(text)
+		p2, ok2, msg := fmtParseMode(text, lineMode)
 		if !ok2 {
 			return false, "", nil, "", false, msg
 		}
 		tree = stripCK(dumpStmts(p2)).([]any)
-		again, okAgain = format(text, p2, compact)
+		again, okAgain = format(text, p2, compact, false)
 		return true, canonDump(tree), tree, again, okAgain, ""
 	}
 	var fok bool
-	if r.FmtN, fok = format(src, prog, false); fok {
-		r.OkN, r.DN, _, r.NN, r.OkNN, r.ErrN = second(r.FmtN, false)
+	if r.FmtN, fok = format(src, prog, false, true); fok {
+		if base != nil && base.Panic == "" && r.FmtN == base.FmtN {
+			r.OkN, r.DN, r.NN, r.OkNN, r.ErrN = base.OkN, base.DN, base.NN, base.OkNN, base.ErrN
+		} else {
+			r.OkN, r.DN, _, r.NN, r.OkNN, r.ErrN = second(r.FmtN, false)
+		}
 	}
-	if r.FmtC, fok = format(src, prog, true); fok {
-		r.OkC, r.DC, r.TC, r.CC, r.OkCC, r.ErrC = second(r.FmtC, true)
+	if r.FmtC, fok = format(src, prog, true, true); fok {
+		if base != nil && base.Panic == "" && r.FmtC == base.FmtC {
+			r.OkC, r.DC, r.TC, r.CC, r.OkCC, r.ErrC = base.OkC, base.DC, base.TC, base.CC, base.OkCC, base.ErrC
+		} else {
+			r.OkC, r.DC, r.TC, r.CC, r.OkCC, r.ErrC = second(r.FmtC, true)
+		}
+	}
+	if via == "ast" {
+		fmtLastAst.src, fmtLastAst.prog, fmtLastAst.rec = src, prog, r
 	}
 	return r, true
 }
@@ -257,6 +338,14 @@ func fmtProbe(args []string) {
 		}
 		if r.Panic != "" {
 			fmt.Printf("  PANIC %s at %s\n", r.Panic, r.PanicAt)
+		}
+		for _, fr := range fnRecords(src) { // the source defines a function: its value through Inspect / SaveGlobals
+			fr := fr
+			fmt.Printf("  FN %s: %q ok=%v same=%v again=%q %s\n", fr.Via, fr.Text, fr.Ok, fnLawGo(&fr), fr.Text2, fr.Panic)
+			if !fnLawGo(&fr) {
+				sigs, note := fnAttribute(&fr, fnLawGo)
+				fmt.Printf("    -> %v %s\n", sigs, note)
+			}
 		}
 		if r.OkN && r.DN != r.D0 {
 			a, b, path := treeDiff(any(r.T0), any(parseDump(r.DN)), "")
